@@ -113,6 +113,40 @@ def parse(text: str, want=None, newline_passthrough: bool = True) -> Outcome:
         return Outcome(None, e, env.LOG.drain())
 
 
+_OTHER = None
+_OTHER_N = 0
+
+
+def distract(rec=None) -> None:
+    """An application holds several charts. Between two questions to the chart under observation, ANOTHER chart that stays alive
+    for the whole shard (48 tempo changes) answers tick-to-time questions far into its map, near its start, and a failing one —
+    whatever a lookup leaves behind (a resume position, a one-entry memo, a half-updated holder) must stay with its own chart."""
+    global _OTHER, _OTHER_N
+    if _OTHER is None:
+        tempos = [[96 * k, gen.usable_n(90000 + 1500 * k)] for k in range(48)]
+        truth = {"resolution": 96, "tempos": tempos, "timesigs": [[0, 4, None]],
+                 "tracks": {"BASS/HARD": {"groups": [{"tick": 96 * 50, "lanes": {"1": 0}, "open": None, "forced": False, "tap": False}], "phrases": []}}}
+        o = parse(gen.render_truth(truth)["text"])
+        _OTHER = o.chart.sync_track.bpm_events if o.ok else False
+    if not _OTHER:
+        return
+    _OTHER_N += 1
+    try:
+        k = _OTHER_N % 4
+        if k == 0:
+            _OTHER.timestamp_at_tick(96 * 47 + 5)
+        elif k == 1:
+            _OTHER.timestamp_at_tick_no_optimize_return(3)
+        elif k == 2:
+            _OTHER.timestamp_at_tick(96 * 30, start_iteration_index=29)
+        else:
+            _OTHER.timestamp_at_tick(-1)
+    except ValueError:
+        pass
+    if rec is not None:
+        rec.mon("questions_put_to_another_live_chart_in_between")
+
+
 def obs(chart) -> dict:
     return observe.observe(chart)
 
